@@ -27,7 +27,7 @@ template <int S> struct Runner {
     const int N = p.N;
     Sp sp = build<S, D>(p);
     const auto &C = sp.getTrajectory().getCoefficients();
-    for (int v = 0; v < 2; ++v) { Sp h = build_with_history<S, D>(p, v); ++c.st.comparisons; if (!mat_bits_equal(h.getTrajectory().getCoefficients(), C) || h.getTrajectory().getBreakpoints() != sp.getTrajectory().getBreakpoints()) { fail("coeffs-after-history", p, "a spline updated from a larger, fully queried problem differs from a fresh one"); return; } }
+    for (int v = 0; v < 3; ++v) { Sp h = build_with_history<S, D>(p, v); ++c.st.comparisons; if (!mat_bits_equal(h.getTrajectory().getCoefficients(), C) || h.getTrajectory().getBreakpoints() != sp.getTrajectory().getBreakpoints()) { fail("coeffs-after-history", p, "a spline updated from a larger, fully queried problem differs from a fresh one"); return; } }
     for (int d = 0; d < D; ++d) {
       int col = col_of_dim[d];
       // The solvers are backward stable: their forward error is relative to the magnitude of the whole solution for
